@@ -55,11 +55,12 @@ def parts (r : Registry) : Option (List Mod) :=
   (closure (includedBy r) (r.mods.length + 1) ((loadedModules r).map (·.seq)).eraseDups).map
     fun ss => ss.filterMap r.byId
 
-/-- Split `p:n` at the first colon. -/
+/-- Split `p:n` at the first colon (no colon: no prefix). -/
 def splitName (s : String) : Option String × String :=
-  match s.toList.span (· != ':') with
-  | (_, []) => (none, s)
-  | (p, _ :: n) => (some (String.ofList p), String.ofList n)
+  let cs := s.toList
+  if cs.contains ':' then
+    (some (String.ofList (cs.takeWhile (· != ':'))), String.ofList ((cs.dropWhile (· != ':')).drop 1))
+  else (none, s)
 
 /-- The module a reference with optional prefix `p`, written in (sub)module `m`, points into. -/
 def moduleOfPrefix (r : Registry) (m : Mod) (p : Option String) : Option Mod :=
@@ -117,6 +118,12 @@ def graph (r : Registry) : Option Graph :=
       missing := ps.flatMap fun m =>
         ((m.includes.filter fun i => (r.findModule true i).isNone) ++
          (m.imports.filter fun i => (r.findModule false i).isNone)).map (·.arg) }
+
+/-- No two identity statements of the schema define the same vertex (RFC 7950 §7.18: identity
+names are unique within a module and its submodules; module names are unique). -/
+def OneStatementPerVertex (r : Registry) : Prop :=
+  ∀ ps, parts r = some ps → ∀ m1 ∈ ps, ∀ m2 ∈ ps, ∀ vs1 ∈ vertexStmts r m1, ∀ vs2 ∈ vertexStmts r m2,
+    vs1.1 = vs2.1 → m1 = m2 ∧ vs1.2 = vs2.2
 
 /-! ### Derivation -/
 
